@@ -805,19 +805,24 @@ def live_reads(spec, root):
         n = by[nid]
         k = n["k"]
         inner_forced = set(forced)
+        def template_refs_of(d):
+            return _preset_paths(d) - set(U.all_paths(d)) | {r for p in U.all_paths(d) for r in ([x for x in U.template_refs(U.lookup(p, d)[1])] if isinstance(U.lookup(p, d)[1], str) else [])}
+
         if k == "dataset":
             new = set(U.leaf_paths(n.get("options") or {}))
             inner_forced |= new
-            for f in ("options", "default_options"):
-                for r in _preset_paths(n.get(f) or {}) - set(U.all_paths(n.get(f) or {})):
-                    live.add(r) if r not in forced else None  # template refs inside pre-sets resolve against mixed options
+            # template references inside pre-sets resolve against the MIXED options: a reference is irrelevant to the
+            # caller only if the key is forced here or further out; a default pre-set never shields a key from the caller
+            for r in template_refs_of(n.get("options") or {}) | template_refs_of(n.get("default_options") or {}):
+                if r not in inner_forced:
+                    live.add(r)
         elif k == "derive" and n["how"] == "with_options":
             inner_forced |= set(U.leaf_paths(n["options"]))
         elif k == "withopts" and n.get("force", True):
             inner_forced |= set(U.leaf_paths(n["options"]))
         if k in ("derive", "withopts"):
-            for r in _preset_paths(n["options"]) - set(U.all_paths(n["options"])):
-                if r not in forced:
+            for r in template_refs_of(n["options"]):
+                if r not in inner_forced:
                     live.add(r)
         forced_any.update(inner_forced)
         for r in reads_of(n):
